@@ -85,6 +85,7 @@ pub fn init_world(toks: &[String]) -> World {
         .map(|c| match c {
             'H' => Link::Healthy,
             'C' => Link::Closed,
+            'U' => Link::Unhealthy,
             _ => Link::Missing,
         })
         .collect();
@@ -247,7 +248,7 @@ fn fmt_err(e: &EngineError) -> &'static str {
         EngineError::Unrecoverable(UnrecoverableEngineError::IndexError(_)) => "index",
         EngineError::Unrecoverable(UnrecoverableEngineError::ExecutionChannelTerminated(_)) => "terminated",
         EngineError::Unrecoverable(_) => "custom",
-        EngineError::Recoverable(_) => "recoverable",
+        EngineError::Recoverable(_) => "unhealthy",
     }
 }
 
